@@ -53,6 +53,13 @@ CHECKS["C10"] = dict(
     design_ref="DESIGN.md section 4 (C10)",
 )
 
+CHECKS["C13"] = dict(
+    category="proof",
+    text="MarkovSequence.sample is verified for the three factorisations, backward and forward sequences and batched sample shapes: the result is affine in the standard-normal draws (symbols of the random.normal kernel, one per PRNG key and entry), equals the marginal means when the draws are zero, and the Gram matrix of its linear part equals the joint covariance defined by the Markov factorisation (including cross-covariances and independence across dimensions and across batched samples).",
+    note="N (number of conditionals), n, d are enumerated; PRNG key derivation (split) is executed concretely with the real implementation, random.normal is a kernel axiom (fresh symbol per key/entry, same key => same draw); relation of the backward factorisation to the smoothing posterior is C03",
+    design_ref="DESIGN.md section 4 (C13)",
+)
+
 NOT_APPLICABLE = {
     "C01": "global accuracy / convergence order against the true ODE solution is not a postcondition of one call nor a data-structure invariant; no contract over the code implies it (DESIGN section 4, C01)",
 }
